@@ -275,6 +275,14 @@ def call_with_contract(it, fi, recv, args, kwargs, node):
 def construct(it, cv, args, kwargs, node):
     if cv.module is None or cv.name in EXC_BASES:
         return Opaque("exception-instance:" + cv.name)
+    if cv.name in getattr(it, "concrete_new", ()):
+        # the contract asks for objects of this class to be built with a concrete shape (attributes held in a dict, created by
+        # the real constructor as it runs); identity is the Python identity of the value
+        o = PyObjV(cv.name, cv.module, {})
+        fi = cv.module.resolve_method(cv.name, "__init__")
+        if fi is not None:
+            it.call_function(fi, [o] + args, kwargs, node)
+        return o
     it.alloc_counter += 1
     r = core.fresh("new_" + cv.name, core.Ref)
     it.facts.append(core.typeof(r) == CLASSES.ids[cv.name])
@@ -731,6 +739,28 @@ def b_hasattr(it, o, name):
     return hasattr(o, name)
 
 
+def b_dir(it, o):
+    """dir() of an object of concrete shape: its attributes so far plus every name its classes define"""
+    if not isinstance(o, PyObjV):
+        raise Unsupported("dir() of %r" % (o,))
+    names = set(o.fields)
+    for c in o.module.mro(o.cls):
+        if c in o.module.classes:
+            for st in o.module.classes[c][0].body:
+                if isinstance(st, (ast.FunctionDef, ast.AsyncFunctionDef)):
+                    names.add(st.name)
+                elif isinstance(st, ast.Assign):
+                    names.update(t.id for t in st.targets if isinstance(t, ast.Name))
+    return sorted(names)
+
+
+def b_type(it, o):
+    """type() of an object of concrete shape (its class; compare through `.__name__`)"""
+    if isinstance(o, PyObjV):
+        return ClassV(o.cls, o.module)
+    raise Unsupported("type() of %r" % (o,))
+
+
 def b_print(it, *a, **k):
     return None
 
@@ -771,7 +801,7 @@ def b_round(it, x, ndigits=None):
 BUILTINS = {
     "len": b_len, "sum": b_sum, "all": b_all, "any": b_any, "max": b_max, "min": b_min, "abs": b_abs, "float": b_float, "int": b_int,
     "isinstance": b_isinstance, "range": b_range, "zip": b_zip, "enumerate": b_enumerate, "list": b_list, "tuple": b_tuple, "dict": b_dict,
-    "bisect_left": b_bisect_left, "round": b_round, "set": b_set, "sorted": b_sorted, "hasattr": b_hasattr, "print": b_print, "bool": b_bool, "str": b_str, "bin": b_bin, "frozenset": b_frozenset,
+    "bisect_left": b_bisect_left, "round": b_round, "set": b_set, "sorted": b_sorted, "hasattr": b_hasattr, "dir": b_dir, "type": b_type, "print": b_print, "bool": b_bool, "str": b_str, "bin": b_bin, "frozenset": b_frozenset,
 }
 
 
